@@ -16,6 +16,15 @@
                    erase with no render in between (None = violated)
      no_lifecycle = the label is not application start/exit/stop/loop-close
      app_alive    = the label is not application start/stop/loop-close
+     term_text s = what has reached the TERMINAL: the text written to the Output object before
+                   the last flush (write_and_flush's own, or the one ending Renderer.erase/render);
+                   pending_text s = written to the Output, not flushed yet
+     valid s ls  = loop validity (Model: safe): no application start between a
+                   `_get_app_loop() -> None` and the `_write_and_flush` using it, no run_async
+                   return between a `-> loop` and its use or with a callback still pending
+     get_app_or_none sess e = is there an application in session sess; cb_session w e = the
+                   session of the context the loop callback runs in (w = call_soon_threadsafe got
+                   context=self._context.copy())
      desugar p ls = ls with every print()/flush() through sys.stdout (LPW/LPFlush) replaced by
                     the proxy.write()/flush() it is while sys.stdout is the proxy, and dropped
                     afterwards (run s ls = run s (desugar (patched s) ls): C20_desugar);
@@ -23,7 +32,7 @@
 From Coq Require Import ZArith List Bool.
 From PTK Require Import Lib.Sx Model.C20_StdoutProxy
   Proofs.C20_Queue Proofs.C20_Chain Proofs.C20_Order Proofs.C20_Refuted Proofs.C20_Progress
-  Proofs.C20_Patch.
+  Proofs.C20_Patch Proofs.C20_Terminal Proofs.C20_Lifecycle Proofs.C20_LoopProgress.
 Import ListNotations.
 Open Scope Z_scope.
 
@@ -252,3 +261,112 @@ Theorem C20_patch_stdout_order_matters : exists ls,
   clean (queue (px (run (init true) ls))) = false.
 Proof. exact close_before_restore. Qed.
 Print Assumptions C20_patch_stdout_order_matters.
+
+
+(* ---- round 6 ---- *)
+
+(* EVERY schedule (any life cycle, races included): nothing written through the proxy is left
+   in the Output object's buffer - every path of _write_and_flush (flush thread, in_terminal's
+   direct "yield; return" path for an application that is gone or terminating, a
+   run-in-terminal section, the closed-loop fallback) ends with self._output.flush() - so what
+   the TERMINAL has received is what was written. *)
+Theorem C20_terminal_flushed : forall c r ls,
+  let s := run (init2 c r) ls in pending_text s = [] /\ term_text s = out_text s.
+Proof. exact flushed_always. Qed.
+Print Assumptions C20_terminal_flushed.
+
+(* ACROSS application start / exit / stop / loop close / restart, every schedule that respects
+   loop validity, proxy in any session, with or without CPR: at every moment terminal text ++
+   text in flight = the write calls' texts in lock order, every write outside a running prompt
+   or between erase and redraw, nothing is on a loop when it is closed.  The two stable regimes
+   (C20_in_order_noapp, C20_in_order_running) are the special cases without / after AppStart. *)
+Theorem C20_in_order_lifecycle : forall c r ls,
+  valid (init2 c r) ls = true ->
+  let s := run (init2 c r) ls in
+  pipeline s = stream ls /\ forallb ev_ok (out s) = true /\ brk_run (out s) <> None /\ lost s = [].
+Proof. exact in_order_lifecycle. Qed.
+Print Assumptions C20_in_order_lifecycle.
+
+(* ... hence after a flush (drained) the terminal has every written character exactly once, the
+   text of each write call whole, in lock order. *)
+Theorem C20_exactly_once_lifecycle : forall c r ls,
+  valid (init2 c r) ls = true -> drained (run (init2 c r) ls) ->
+  term_text (run (init2 c r) ls) = concat (map snd (writes ls)) /\ pending_text (run (init2 c r) ls) = [].
+Proof. exact exactly_once_lifecycle. Qed.
+Print Assumptions C20_exactly_once_lifecycle.
+
+(* the hypothesis is satisfiable by a whole life (two applications, loop closed in between), every
+   list without life-cycle labels satisfies it, and the known races are exactly its violations *)
+Example C20_example_lifecycle : valid (init true) w_life = true /\ all_enabled (init true) w_life = true /\
+  drained (run (init true) w_life) /\ term_text (run (init true) w_life) = (ta ++ tb ++ ta ++ tb)%list.
+Proof. exact life_ok. Qed.
+Print Assumptions C20_example_lifecycle.
+
+Theorem C20_no_lifecycle_is_valid : forall ls s, forallb no_lifecycle ls = true -> valid s ls = true.
+Proof. exact nolife_valid. Qed.
+Print Assumptions C20_no_lifecycle_is_valid.
+
+Theorem C20_races_violate_validity : valid (init true) w_start = false /\ valid (init true) w_stop = false.
+Proof. exact races_invalid. Qed.
+Print Assumptions C20_races_violate_validity.
+
+(* Which application the loop callback sees.  HEAD (context=self._context.copy()): the one of
+   the proxy's own session, for a proxy created in ANY session - this is what makes `forall c`
+   in C20_in_order_running / C20_in_order_lifecycle hold (LoopStep reads ctx through
+   get_app_or_none).  Pre-fix loop step (callback in the flush thread's context = default
+   session): blind for a proxy of another session, and the other-session witness is written
+   into the drawn prompt; for a proxy of the default session the two steps coincide. *)
+Theorem C20_callback_sees_own_session : forall e, get_app_or_none (cb_session true e) e = app e.
+Proof. exact sees_own_app. Qed.
+Print Assumptions C20_callback_sees_own_session.
+
+Theorem C20_callback_noctx_blind : forall e, ctx e = false -> get_app_or_none (cb_session false e) e = false.
+Proof. exact noctx_other_session_blind. Qed.
+Print Assumptions C20_callback_noctx_blind.
+
+Theorem C20_bracket_session_noctx_refuted :
+  all_enabled (init_running false) w_ctx = true /\
+  forallb ev_ok (out (run_noctx (init_running false) w_ctx)) = false /\
+  brk_run (out (run_noctx (init_running false) w_ctx)) = None /\
+  forallb ev_ok (out (run_noctx (init_running true) w_ctx)) = true.
+Proof. exact ctx_unbracketed_noctx. Qed.
+Print Assumptions C20_bracket_session_noctx_refuted.
+
+(* StdoutProxy(raw=...) on a Vt100_Output: the BYTES the terminal receives are every write call's
+   text, whole, in lock order, each as Output.write_raw (raw: unchanged) or Output.write (ESC
+   replaced by "?", nothing else; same length) leaves it - escaping a joined batch never changes
+   a neighbouring call's text. *)
+Theorem C20_terminal_bytes : forall raw c r ls,
+  valid (init2 c r) ls = true -> drained (run (init2 c r) ls) ->
+  term_bytes raw (run (init2 c r) ls) = concat (map (fun w => vt_write raw (snd w)) (writes ls)) /\
+  length (term_bytes raw (run (init2 c r) ls)) = length (stream ls) /\
+  concat (ev_bytes raw (out (run (init2 c r) ls))) = term_bytes raw (run (init2 c r) ls).
+Proof. exact terminal_bytes_lifecycle. Qed.
+Print Assumptions C20_terminal_bytes.
+
+Theorem C20_vt_write_facts :
+  (forall t, vt_write true t = t) /\
+  (forall t, forallb (fun c => negb (Z.eqb c 27)) t = true -> vt_write false t = t) /\
+  (forall raw t, length (vt_write raw t) = length t).
+Proof. exact (conj vt_write_raw (conj vt_write_noesc vt_write_length)). Qed.
+Print Assumptions C20_vt_write_facts.
+
+(* Progress of the loop / chain side (bounded fuel), the second half of "after a flush": from
+   EVERY reachable state whose loop is not closed, the loop's own steps alone - lnext = a foreign
+   in_terminal section ends / wait_for_cpr_responses times out / the head of the waiting
+   sections is woken / the oldest pending callback runs; at most 3*|pending callbacks| +
+   3*|waiting sections| + 2 of them - leave no callback pending, no section waiting or open and no
+   CPR wait: every handed-over batch has been run and every chained section entered.  With
+   C20_flush_thread_progress and C20_in_order_lifecycle: a fair continuation drains. *)
+Theorem C20_loop_side_progress : forall c r ls,
+  let s := run (init2 c r) ls in
+  lclosed (en s) = false ->
+  lquiet (liter (3 * length (loopq (en s)) + 3 * length (waitq (ch s)) + 2) s).
+Proof. exact loop_progress_reachable. Qed.
+Print Assumptions C20_loop_side_progress.
+
+(* ... and each such step is a step of the model by an enabled label. *)
+Theorem C20_loop_progress_is_schedule : forall s, LP s ->
+  lquiet s \/ exists l, enabled s l = true /\ lnext s = step s l.
+Proof. exact lnext_is_step. Qed.
+Print Assumptions C20_loop_progress_is_schedule.
